@@ -24,7 +24,10 @@ The changes below were written by fresh sub-agents that were given only the text
 `/repo` (nothing from `/verif`). Each was confirmed in a scratch worktree (`lib/seedtest.py`): it applies to `/repo`'s
 HEAD, the 45 tests still pass with it, its demonstration passes without it and fails with it. Then every quick check was
 run against the changed tree (harness built against the scratch worktree through cargo's `paths` override; `/repo` itself
-is never touched) and the checks that exited 1 with a `VIOLATION` line were recorded. Each change is kept under
+is never touched) and the checks that exited 1 with a `VIOLATION` line were recorded. After the last strengthening, the
+check of each change's own property was run once more against it with the final machinery (all 116); for the other checks
+the table shows the outcome of the last full evaluation of that change (batches 5-7 were evaluated against their own
+property's check only). Each change is kept under
 `seeded/<property>-<n>/` (`patch.diff`, `demo.rs`, `meta.json` with the full per-check outcome).
 
 %d changes; %d are reported by the check of the property they were written against, %d by at least one check.
